@@ -22,6 +22,7 @@ template <typename T> static const char * tname();
 template <> const char * tname<std::size_t>() { return "size_t"; }
 template <> const char * tname<unsigned>() { return "unsigned"; }
 template <> const char * tname<int>() { return "int"; }
+template <> const char * tname<long>() { return "long"; }
 template <> const char * tname<float>() { return "float"; }
 template <> const char * tname<double>() { return "double"; }
 
@@ -248,6 +249,9 @@ static void trace_box(rng & r, std::ofstream & out, long n, long & events) {
             if constexpr (std::is_floating_point_v<T>) { if (std::isinf(a) && a > 0) a = std::numeric_limits<T>::max(); }
             lo[i] = a; hi[i] = b;
             x[i] = r.below(3) == 0 ? random_value<T>(r) : nudge<T>(r.below(2) ? a : b, r);
+            if constexpr (std::is_integral_v<T> && sizeof(T) == 8) {          // a value that equals an in-box value modulo 2^32
+                if (r.below(5) == 0) { T alias = (T)((unsigned long long)a + ((unsigned long long)(1 + r.below(7)) << 32)); x[i] = alias; }
+            }
             rel.push_back(relation<T>(x[i], a, b)); deg.push_back(a == b);
         }
         if (g_which != "backup") {
@@ -282,7 +286,7 @@ int main(int argc, char ** argv) {
         long events = 0;
         trace_box<int, 1>(r, out, n, events); trace_box<unsigned, 2>(r, out, n, events); trace_box<std::size_t, 3>(r, out, n, events);
         trace_box<float, 1>(r, out, n, events); trace_box<float, 4>(r, out, n, events); trace_box<double, 2>(r, out, n, events); trace_box<double, 3>(r, out, n, events);
-        trace_box<int, 4>(r, out, n, events);
+        trace_box<int, 4>(r, out, n, events); trace_box<long, 2>(r, out, n, events); trace_box<long, 1>(r, out, n, events);
         g_cases = events;
         summary({{"events", events}});
         return 0;
